@@ -302,7 +302,7 @@ impl Check for C13 {
         let mut doc = cases::doc_opts_for(tier, &mut rng);
         doc.pay.max_len = doc.pay.max_len.min(300);
         doc.raw_pct = *rng.pick(&[0u64, 10]);
-        let io_o = InputOpts { doc, faulted_pct: 60, truncated_pct: 5, random_pct: 5, soup_pct: 10, max_faults: 3 };
+        let io_o = InputOpts { doc, faulted_pct: 60, truncated_pct: 5, random_pct: 5, soup_pct: 10, max_faults: 3, mid_document_pct: 0 };
         let gi = cases::gen_input(&mut rng, &spec, &io_o, &mut fs);
         let cfg = IterCfg { max_size: MaxSz::Limit(*rng.pick(&[4usize, 30, 1000, 1 << 20])), capacity: io::gen_capacity(&mut rng, gi.bytes.len()), buffered: cases::gen_buffered(&mut rng, &spec, 15), ..Default::default() };
         let script = io::gen_rscript(&mut rng, gi.bytes.len(), &[]);
